@@ -159,10 +159,13 @@ func (r *runner) applyBlock(abs []Tx, ok []bool, explored bool) {
 		accepted := err == nil && dupErr == nil
 		ruleOK := ok == nil || i >= len(ok) || ok[i]
 		if accepted && !ruleOK {
-			r.violation("C29:double-withdraw-in-block",
-				fmt.Sprintf("block %d: withdrawal #%d of proposal %d (%d units) is accepted although an earlier withdrawal of the same block "+
-					"already pays these stages (each is checked against the state before the block; CheckDuplicateTx has no rule)",
-					h, i+1, bt.abs.P, bt.abs.N), map[string]interface{}{"txs": abs})
+			key, what := "C29:double-withdraw-in-block", "pays budget stages an earlier withdrawal of the same block already pays"
+			if bt.abs.K == "Tracking" {
+				key, what = "C29:double-tracking-in-block", "gives back / releases budget computed from the same pre-block state as an earlier tracking of the same block"
+			}
+			r.violation(key, fmt.Sprintf("block %d: %s #%d of proposal %d is accepted although it %s (each transaction is checked against the "+
+				"state before the block and CheckDuplicateTx has no rule for it)", h, bt.abs.K, i+1, bt.abs.P, what),
+				map[string]interface{}{"txs": abs})
 			r.failed = false // keep going: the spec models what the code does next
 		}
 		if !accepted {
@@ -396,6 +399,38 @@ func (r *runner) probe(vd map[string]interface{}) {
 					"the stage would be paid twice", h, av, p), map[string]interface{}{"probe": "double-withdraw"})
 				r.failed = false
 			}
+		}
+	}
+	// two trackings of one proposal in one block (terminate + progress)
+	for p := 1; p <= r.env.cfg.NProps; p++ {
+		ps := r.A.proposal(p)
+		if ps == nil || propStates[ps.Status] != "VoterAgreed" || len(ps.Proposal.Budgets) == 0 {
+			continue
+		}
+		if _, done := ps.WithdrawableBudgets[1]; done || int(ps.TrackingCount) >= r.env.cfg.MaxTracking {
+			continue
+		}
+		owner := 0
+		for i := 1; i < len(r.env.owners); i++ {
+			if string(r.env.owners[i].pub) == string(ps.ProposalOwner) {
+				owner = i
+			}
+		}
+		if owner == 0 {
+			continue
+		}
+		r.st.doubleProbes++
+		b1, _ := r.env.Build(r.A, r.top().led, Tx{K: "Tracking", P: p, O: owner, X: "Terminated"}, h)
+		b2, _ := r.env.Build(r.A, r.top().led, Tx{K: "Tracking", P: p, O: owner, X: "Progress", N: 2}, h)
+		blk := r.env.block(h, []*builtTx{b1, b2})
+		e0 := blockchain.CheckDuplicateTx(blk)
+		e1, _ := r.A.Check(b1, h, 0)
+		e2, _ := r.A.Check(b2, h, 0)
+		if e0 == nil && e1 == nil && e2 == nil {
+			r.violation("C29:double-tracking-in-block", fmt.Sprintf("height %d: a block terminating proposal %d and releasing its stage 1 passes "+
+				"CheckDuplicateTx and both trackings pass the checker: the stage's budget is given back to the committee and stays withdrawable", h, p),
+				map[string]interface{}{"probe": "double-tracking"})
+			r.failed = false
 		}
 	}
 	// proposal registration around the two budget limits
